@@ -1,4 +1,6 @@
+mod codec;
 mod drive;
+mod http;
 mod tlc;
 mod util;
 mod xml;
@@ -7,6 +9,10 @@ use util::{tool_error, Ctx};
 
 fn main() {
   let args: Vec<String> = std::env::args().collect();
+  if args.len() >= 3 && args[1] == "probe" {
+    probe(&args[2..]);
+    return;
+  }
   if args.len() < 4 || args[1] != "check" {
     eprintln!("usage: dmntk-verif check <ID> quick|thorough | check <ID> --replay <path>");
     std::process::exit(2);
@@ -29,6 +35,43 @@ fn main() {
   };
   match id {
     "C17" => drive::c17::check(Ctx::new(id, &tier, "model_checking"), replay),
+    "C18" => drive::c18::check(Ctx::new(id, &tier, "model_checking"), replay),
     _ => tool_error(&format!("no check for {}", id)),
+  }
+}
+
+/// Development aid: `probe feel '<ctx>' '<expr>'` or `probe model <file.dmn> <invocable> '<ctx>'`.
+fn probe(args: &[String]) {
+  let scope = dmntk_feel::Scope::default();
+  match args[0].as_str() {
+    "feel" => {
+      let ctx = dmntk_feel_evaluator::evaluate_context(&scope, &args[1]).expect("context");
+      let sc: dmntk_feel::Scope = ctx.into();
+      match dmntk_feel_parser::parse_expression(&sc, &args[2], false) {
+        Ok(node) => {
+          println!("AST {:?}", node);
+          match dmntk_feel_evaluator::evaluate(&sc, &node) {
+            Ok(v) => println!("VALUE {}  {}", v, codec::enc_value(&v)),
+            Err(e) => println!("EVAL-ERR {}", e),
+          }
+        }
+        Err(e) => println!("PARSE-ERR {}", e),
+      }
+    }
+    "model" => {
+      let xml = std::fs::read_to_string(&args[1]).expect("file");
+      match dmntk_model::parse(&xml) {
+        Err(e) => println!("PARSE-ERR {}", e),
+        Ok(defs) => match dmntk_model_evaluator::ModelEvaluator::new(&defs) {
+          Err(e) => println!("BUILD-ERR {}", e),
+          Ok(me) => {
+            let ctx = dmntk_feel_evaluator::evaluate_context(&scope, &args[3]).expect("context");
+            let v = me.evaluate_invocable(&args[2], &ctx);
+            println!("VALUE {}  {}", v, codec::enc_value(&v));
+          }
+        },
+      }
+    }
+    _ => {}
   }
 }
